@@ -247,6 +247,7 @@ func (blockchain *Blockchain) InitChain(req abciTypes.RequestInitChain) abciType
 
 	lastHeight := initialHeight
 	blockchain.appDB.SetLastHeight(lastHeight)
+	atomic.StoreUint64(&blockchain.height, lastHeight)
 
 	blockchain.appDB.SetEmission(helpers.StringToBigInt(genesisState.Emission))
 
